@@ -487,22 +487,160 @@ def _kp_new_obj(ex, st, args, kwargs, node):
     bound.update(kwargs)
     o = ex.new_object(st, "KPairT")
     for n in names:
-        ex.write_field(st, o, n, bound[n], node)
+        ex.write_field(st, o, n, ex.deopt(bound[n], st, node), node)  # (an Optional argument must be present: obligation)
     return o
 
 
-# (skeleton, not registered: `for glyph in pair.side1` iterates a Union(STR, TupleOf(STR)) whose alternative is fixed by the
-# path condition only - engine request filed; until then the function stays under the end-to-end observer)
-contract(
-    f"{_KP_MOD}:KernFeatureWriter._splitBaseAndMarkPairs",
-    props=["C05"],
-    params={"self": Ref("KernWriter"), "pairs": List(Ref("KPairT")), "marks": Set(STR)},
-    returns=Tuple(List(Ref("KPairT")), List(Ref("KPairT"))),
-    models={f"{_KP_MOD}.KerningPair": _kp_new_obj},
-    ensures={"trivial": "True"},
-    canaries={"no-marks": "len(result[1]) == 0"},
-    locals={"basePairs": List(Ref("KPairT")), "markPairs": List(Ref("KPairT"))},
-)
+from pyvc.rt import implies  # noqa: E402,F401  (spec functions run natively at run time)
+
+
+@specfn(BOOL, qs=SIDE_T, ps=SIDE_T, marks=Set(STR), m=BOOL)
+def k5_side_part(qs, ps, marks, m):
+    """qs is the mark part (m) / the base part (not m) of the side ps: for a class the tuple of exactly its marks resp.
+    non-marks (still a class, whatever its size), for a single glyph the glyph itself if it is of that sort"""
+    return (
+        (isinstance(qs, tuple) and all(x in ps and (x in marks) == m for x in qs) and all(implies((x in marks) == m, x in qs) for x in ps))
+        if isinstance(ps, tuple)
+        else ((not isinstance(qs, tuple)) and qs == ps and (ps in marks) == m)
+    )
+
+
+@specfn(BOOL, ps=SIDE_T, marks=Set(STR), m=BOOL)
+def k5_has_part(ps, marks, m):
+    """the side ps has a glyph of that sort (mark if m, base otherwise)"""
+    return any((x in marks) == m for x in ps) if isinstance(ps, tuple) else (ps in marks) == m
+
+
+_PART = "({q}.value == {p}.value and k5_side_part({q}.side1, {p}.side1, marks, {m1}) and k5_side_part({q}.side2, {p}.side2, marks, {m2}))"
+_NONEMPTY = "(implies(isinstance({q}.side1, tuple), len({q}.side1) >= 1) and implies(isinstance({q}.side2, tuple), len({q}.side2) >= 1))"
+_SAME = "({a}.side1 == old({a}.side1) and {a}.side2 == old({a}.side2) and {a}.value == old({a}.value))"
+
+
+def _split_contract(target, params, props):
+    B, M = "result[0]", "result[1]"
+
+    def covered(m1, m2, lst):
+        return ("all(implies(k5_has_part(pairs[a].side1, marks, " + m1 + ") and k5_has_part(pairs[a].side2, marks, " + m2 + "), any("
+                + _PART.format(q=lst + "[n]", p="pairs[a]", m1=m1, m2=m2) + " for n in range(len(" + lst + ")))) for a in range(len(pairs)))")
+
+    return contract(
+        target,
+        name="full",
+        props=props,
+        params=params,
+        returns=Tuple(List(Ref("KPairT")), List(Ref("KPairT"))),
+        models={f"{_KP_MOD}.KerningPair": _kp_new_obj},
+        # heap well-formedness: the input pairs exist before the call
+        requires=["all(not fresh(pairs[a]) for a in range(len(pairs)))"],
+        # new KerningPair objects are created; the input pairs keep their content (clause `input-untouched`)
+        modifies=["KPairT.side1", "KPairT.side2", "KPairT.value"],
+        ensures={
+            "input-untouched": "all(" + _SAME.format(a="pairs[a]") + " for a in range(len(pairs)))",
+            # no marks in the font: everything is base-to-base
+            "no-marks": f"implies(marks == set(), {B} == pairs and len({M}) == 0)",
+            # every base pair is the base-to-base part of an input pair: same value, same kind of each side (a class stays a
+            # class), exactly the non-mark glyphs of each side
+            "base-sound": f"implies(marks != set(), all(any(" + _PART.format(q=B + "[n]", p="pairs[a]", m1="False", m2="False") + f" for a in range(len(pairs))) for n in range(len({B}))))",
+            # every mark pair is the base-to-mark, mark-to-base or mark-to-mark part of an input pair
+            "mark-sound": f"implies(marks != set(), all(any(" + " or ".join(_PART.format(q=M + "[n]", p="pairs[a]", m1=m1, m2=m2) for m1, m2 in (("False", "True"), ("True", "False"), ("True", "True")))
+                          + f" for a in range(len(pairs))) for n in range(len({M}))))",
+            # no empty class is produced
+            "non-empty": f"implies(marks != set(), all({_NONEMPTY.format(q=B + '[n]')} for n in range(len({B}))) and all({_NONEMPTY.format(q=M + '[n]')} for n in range(len({M}))))",
+        },
+        # run-time only (bounded): nothing is lost - every non-empty part of every input pair is in the right list, so a glyph pair
+        # covered by an input pair is covered by exactly the part with its two glyphs' sorts (exceptions stay together)
+        bounded_ensures={
+            "base-complete": "implies(marks != set(), " + covered("False", "False", B) + ")",
+            "mark-complete": "implies(marks != set(), " + " and ".join(covered(m1, m2, M) for m1, m2 in (("False", "True"), ("True", "False"), ("True", "True"))) + ")",
+        },
+        canaries={"no-mark-pairs": f"len({M}) == 0", "same-length": f"len({B}) == len(pairs)"},
+        locals={"basePairs": List(Ref("KPairT")), "markPairs": List(Ref("KPairT"))},
+        merge_branches=False,
+        # ghost: for every produced pair the index of the input pair it comes from and which part it is
+        ghost_vars={"sb": (List(INT), "[]"), "sm": (List(INT), "[]"), "k1": (List(BOOL), "[]"), "k2": (List(BOOL), "[]")},
+        ghost={
+            "basePairs.append(KerningPair(side1Bases, side2Bases, value=pair.value))": ["sb = sb + [i]"],
+            "markPairs.append(KerningPair(side1Bases, side2Marks, value=pair.value))": ["sm = sm + [i]", "k1 = k1 + [False]", "k2 = k2 + [True]"],
+            "markPairs.append(KerningPair(side1Marks, side2Bases, value=pair.value))": ["sm = sm + [i]", "k1 = k1 + [True]", "k2 = k2 + [False]"],
+            "markPairs.append(KerningPair(side1Marks, side2Marks, value=pair.value))": ["sm = sm + [i]", "k1 = k1 + [True]", "k2 = k2 + [True]"],
+        },
+        loops={"for pair in pairs": Loop(index="i", invariants={
+            "input": "all(" + _SAME.format(a="pairs[a]") + " and not fresh(pairs[a]) for a in range(len(pairs)))",
+            "lens": "len(sb) == len(basePairs) and len(sm) == len(markPairs) and len(k1) == len(sm) and len(k2) == len(sm)",
+            "new-base": "all(fresh(basePairs[n]) and allocated(basePairs[n]) for n in range(len(basePairs)))",
+            "new-mark": "all(fresh(markPairs[n]) and allocated(markPairs[n]) for n in range(len(markPairs)))",
+            "base": "all(0 <= sb[n] and sb[n] < i and " + _PART.format(q="basePairs[n]", p="pairs[sb[n]]", m1="False", m2="False") + " and " + _NONEMPTY.format(q="basePairs[n]") + " for n in range(len(basePairs)))",
+            "mark": "all(0 <= sm[n] and sm[n] < i and (k1[n] or k2[n]) and " + _PART.format(q="markPairs[n]", p="pairs[sm[n]]", m1="k1[n]", m2="k2[n]") + " and " + _NONEMPTY.format(q="markPairs[n]") + " for n in range(len(markPairs)))",
+        })},
+    )
+
+
+# NOT registered (props=[]): the function is executable by the engine now and 196 of the 225 obligations discharge, but obligation
+# generation takes 3 minutes (30 paths through the four `if side..Bases and side..Marks` tests, each with the engine's
+# in-process feasibility checks) and the `base` / `mark` step obligations of the paths that append time out.
+_split_contract(f"{_KP_MOD}:KernFeatureWriter._splitBaseAndMarkPairs", {"self": Ref("KernWriter"), "pairs": List(Ref("KPairT")), "marks": Set(STR)}, [])
+_split_contract(f"{_KP_MOD}2:split_base_and_mark_pairs", {"pairs": List(Ref("KPairT")), "marks": Set(STR)}, [])
+
+# Registered, light version: no exception on any path (in particular no comparison / membership test of a str against a tuple:
+# the side is always of the sort the branch assumes), the shortcut for fonts without marks, and the frame.
+for _tgt, _pp in ((f"{_KP_MOD}:KernFeatureWriter._splitBaseAndMarkPairs", {"self": Ref("KernWriter")}), (f"{_KP_MOD}2:split_base_and_mark_pairs", {})):
+    contract(
+        _tgt,
+        props=["C05"],
+        params={**_pp, "pairs": List(Ref("KPairT")), "marks": Set(STR)},
+        returns=Tuple(List(Ref("KPairT")), List(Ref("KPairT"))),
+        models={f"{_KP_MOD}.KerningPair": _kp_new_obj},
+        requires=["all(not fresh(pairs[a]) for a in range(len(pairs)))"],
+        modifies=["KPairT.side1", "KPairT.side2", "KPairT.value"],
+        ensures={
+            "input-untouched": "all(" + _SAME.format(a="pairs[a]") + " for a in range(len(pairs)))",
+            "no-marks": "implies(marks == set(), result[0] == pairs and len(result[1]) == 0)",
+        },
+        # run-time only (bounded): the functional clauses of the unregistered `full` variant (what every produced pair is, and
+        # that no part of an input pair is lost), evaluated on generated pair lists
+        bounded_ensures={k: v for k, v in {**CONTRACTS[_tgt + "#full"].ensures, **CONTRACTS[_tgt + "#full"].bounded_ensures}.items()
+                         if k in ("base-sound", "mark-sound", "non-empty", "base-complete", "mark-complete")},
+        canaries={"no-mark-pairs": "len(result[1]) == 0"},
+        locals={"basePairs": List(Ref("KPairT")), "markPairs": List(Ref("KPairT"))},
+        loops={"for pair in pairs": Loop(index="i", invariants={
+            "input": "all(" + _SAME.format(a="pairs[a]") + " and not fresh(pairs[a]) for a in range(len(pairs)))",
+        })},
+    )
+
+
+def _split_cases(rng, n):
+    glyphs = ["A", "V", "o", "acutecomb", "gravecomb", "dotbelowcomb"]
+    out = []
+    for k in range(n):
+        marks = [] if k % 6 == 0 else rng.sample(glyphs[3:], rng.randint(1, 3)) + ([rng.choice(glyphs[:3])] if k % 7 == 0 else [])
+
+        def side():
+            return rng.choice(glyphs) if rng.random() < 0.5 else sorted(rng.sample(glyphs, rng.randint(1, 4)))
+
+        out.append({"marks": marks, "pairs": [[side(), side(), rng.choice([-40, 0, 12.5, 7])] for _ in range(rng.randint(0, 5))]})
+    return out
+
+
+def _split_build(d):
+    from ufo2ft.featureWriters.kernFeatureWriter import KernFeatureWriter, KerningPair
+
+    def side(x):
+        return tuple(x) if isinstance(x, list) else x
+
+    class CopyablePair(KerningPair):
+        """KerningPair (frozen, hand-written __slots__) cannot be copied by the copy module; the run-time interpreter snapshots
+        the arguments for old(..): an immutable value is its own copy"""
+
+        __slots__ = ()
+
+        def __deepcopy__(self, memo):
+            return self
+
+    return {"self": KernFeatureWriter(), "pairs": [CopyablePair(side(a), side(b), v) for a, b, v in d["pairs"]], "marks": set(d["marks"])}
+
+
+CONTRACTS[f"{_KP_MOD}:KernFeatureWriter._splitBaseAndMarkPairs"].runtime = Runtime(_split_cases, _split_build, call=lambda fn, a: fn(a["self"], a["pairs"], a["marks"]))
+CONTRACTS[f"{_KP_MOD}2:split_base_and_mark_pairs"].runtime = Runtime(_split_cases, _split_build, call=lambda fn, a: fn(a["pairs"], a["marks"]))
 
 
 # =====================================================================================================
